@@ -58,6 +58,7 @@ def verdict (b : Bool) : String := if b then "ok" else "rejected"
 def step (w : W) (toks : List String) : W × String :=
   match toks with
   | ["case", _] => ({}, "ok")
+  | ["patch", _] => (w, "ok")  -- a field no document holds and no index covers: nothing changes
   | ["idx", "n", _] => (w, "ok")
   | ["idx", "u", fs] =>
     -- the direction of a field does not matter for uniqueness
